@@ -5,7 +5,6 @@ unpack_highres_date."""
 
 import itertools
 import math
-import os.path
 
 from hypothesis import strategies as st
 
